@@ -42,3 +42,38 @@ let show_outcome (o : Parser.outcome) : string = match o with
   | Parser.OOutOfFuel -> "OUTOFFUEL"
   | Parser.OInvalidConfig -> "INVALID"
 
+(* An entry whose id is not defined (argument or group) by the command of the level it sits in is
+   printed `(<id> ?)`, exactly as harness/src/modes/parse.rs prints the entries the real accessors
+   refuse in a debug build (a global defined only in a subcommand also lands in the matches of the
+   levels above it).  [c]: the built command whose ids are valid at this level; [node]: the command
+   to look subcommands up in, None below an external subcommand. *)
+let defined (c : Cmd.cmd) (i : Cmd.id) : bool =
+  i = [] ||
+  Stdlib.List.exists (fun a -> a.Cmd.a_id = i) c.Cmd.c_args ||
+  Stdlib.List.exists (fun g -> g.Cmd.g_id = i) c.Cmd.c_groups
+
+let rec show_masked (c : Cmd.cmd) (node : Cmd.cmd option) (m : Matcher.matches) : string =
+  let Matcher.Matches (args, sub) = m in
+  let entries = Stdlib.List.map (fun (i, ma) ->
+      let open Matcher in
+      if not (defined c i) then Printf.sprintf "(%s ?)" (hex i) else
+      Printf.sprintf "(%s %s (%s) (%s))" (hex i) (src_name ma.m_source)
+        (String.concat " " (Stdlib.List.map (fun x -> Z.to_string (z_of_n x)) ma.m_indices))
+        (String.concat " " (Stdlib.List.map (fun g -> "(" ^ String.concat " " (Stdlib.List.map hex g) ^ ")") ma.m_raw))) args in
+  let subs = match sub with
+    | None -> ""
+    | Some (name, sm) ->
+      let Matcher.Matches (sargs, _) = sm in
+      let is_ext = Stdlib.List.exists (fun (i, _) -> i = []) sargs in
+      let next = match node with Some n when not is_ext -> Cmd.find_subcommand n name | _ -> None in
+      let s = match next with
+        | Some sc -> show_masked sc (Some sc) sm
+        | None -> show_masked c None sm in
+      Printf.sprintf " (sub %s %s)" (hex name) s in
+  "(m" ^ (if entries = [] then "" else " " ^ String.concat " " entries) ^ subs ^ ")"
+
+let show_outcome_masked (c : Cmd.cmd) (o : Parser.outcome) : string = match o with
+  | Parser.OOk m ->
+    let built = Build.build_recursive (Conv.nat_of_int 12) c in
+    "ok " ^ show_masked built (Some built) m
+  | o -> show_outcome o
